@@ -33,6 +33,10 @@ RULES = {
     ("validate_fields", 'Expected output type for field "%s" on "%s" but got "%s"'): "fieldNotOutput",
     ("validate_fields", 'Duplicate argument "%s" on "%s"'): "dupArg",
     ("validate_fields", 'Expected input type for argument "%s" on "%s" but got "%s"'): "argNotInput",
+    ("validate_fields", 'Invalid default value for argument "%s" on "%s": %s'): "argDefault",
+    ("validate_directives", 'Invalid default value for argument "%s" on directive "@%s": %s'): "dirArgDefault",
+    ("validate_input_fields", 'Invalid default value for field "%s" on "%s": %s'): "inputFieldDefault",
+    ("validate_enum_values", 'Enum value "%s.%s" cannot have None as its internal value'): "enumValueNone",
     ("_validate_resolver_arguments", 'Missing resolver parameter for argument "%s" on "%s"'): "resMissingParam",
     ("_validate_resolver_arguments", 'Argument "%s" on "%s" collides with a positional resolver parameter'): "resCollides",
     ("_validate_resolver_arguments", 'Resolver for "%s" is not callable'): "resNotCallable",
@@ -59,8 +63,12 @@ RULES = {
 # call sites that only exist once the proposed fix C13-S4-S6 is applied (their absence = unfixed tree)
 FIX_ONLY = {("validate_interfaces", 'Type "%s" can only implement interface types but got "%s"'),
             ("_validate_resolver_arguments", 'Argument "%s" on "%s" collides with a positional resolver parameter'),
-            ("_validate_resolver_arguments", 'Resolver for "%s" is not callable')}
-FIX_ONLY_RULES = {"resCollides", "resNotCallable"}
+            ("_validate_resolver_arguments", 'Resolver for "%s" is not callable'),
+            ("validate_fields", 'Invalid default value for argument "%s" on "%s": %s'),
+            ("validate_directives", 'Invalid default value for argument "%s" on directive "@%s": %s'),
+            ("validate_input_fields", 'Invalid default value for field "%s" on "%s": %s'),
+            ("validate_enum_values", 'Enum value "%s.%s" cannot have None as its internal value')}
+FIX_ONLY_RULES = {"resCollides", "resNotCallable", "argDefault", "dirArgDefault", "inputFieldDefault", "enumValueNone"}
 # unreachable through `Schema()` (construction raises first); not produced by the model
 NOT_MODELLED = {"notDirective", "enumNotValue"}
 
@@ -349,6 +357,18 @@ def _single_violation(rule, k):
     elif rule == "resCollides":
         oown["args"] = [A(["info", "ctx"][k], N("Int"))]
         oown["resolver"] = "root, ctx, info, **kw"
+    elif rule == "argDefault":
+        a = A(x, [N("Int"), ("nonNull", N("Int"))][k]); a["default"] = "1"; a["default_py"] = ["no", None][k]
+        oown["args"] = [a]
+        oown["name"] = own
+    elif rule == "dirArgDefault":
+        a = A(x, [N("Int"), ("nonNull", N("Int"))][k]); a["default"] = "1"; a["default_py"] = ["no", None][k]
+        d["directives"].append({"name": "d" + sfx, "locations": ["FIELD"], "desc": None, "args": [a]})
+    elif rule == "inputFieldDefault":
+        a = A("o" + sfx, [N("Int"), ("nonNull", N("Int"))][k]); a["default"] = "1"; a["default_py"] = ["no", None][k]
+        T[In]["fields"].append(a)
+    elif rule == "enumValueNone":
+        T[E]["values"].append({"name": "N" + sfx, "deprecated": None, "desc": None, "py_value": None})
     elif rule == "resNotCallable":
         oown["resolver"] = "!not-callable"
         oown["name"] = own + "x" * k
@@ -679,6 +699,8 @@ def validator_config():
             and getattr(n.targets[0], "id", "") == "is_resolved" for n in ast.walk(vf)) and
             not any(isinstance(n, ast.If) and "_validate_resolver_arguments" in ast.dump(n) and "ObjectType" in ast.dump(n.test) for n in ast.walk(vf)),
         "not_callable_reported": "is not callable" in ast.dump(vra),
+        "defaults_checked": "_default_value_error" in ast.dump(vf),
+        "enum_none_reported": "cannot have None" in ast.dump(_method("validate_enum_values")),
     }
 
 
